@@ -43,13 +43,36 @@ class Ctx:
         self.notes = []
         self.inputs = {}          # name -> decode descriptor (top-level parameters)
         self.axioms_added = set()
+        self.spec_hyps = []       # antecedents of enclosing `implies` while evaluating a contract clause
+
+    def known(self, cond, timeout_ms=300):
+        """True if the path condition (and enclosing spec antecedents) entail cond (cheap check)."""
+        t = z3.simplify(cond)
+        if z3.is_true(t):
+            return True
+        if z3.is_false(t):
+            return False
+        self.solver.push()
+        try:
+            self.solver.set("timeout", timeout_ms)
+            for h in self.spec_hyps:
+                self.solver.add(h)
+            self.solver.add(z3.Not(cond))
+            r = self.solver.check()
+        finally:
+            self.solver.set("timeout", self.FEAS_TIMEOUT_MS)
+            self.solver.pop()
+        return r == z3.unsat
 
     # -- names
     def fresh(self, base, sort):
         base = base.replace("!", "_")
         n = self.counters.get(base, 0)
         self.counters[base] = n + 1
-        return z3.Const(f"{base}!{n}", sort)
+        c = z3.Const(f"{base}!{n}", sort)
+        for fr in self.acc_frames:
+            fr.setdefault("fresh", []).append(c)
+        return c
 
     def fresh_fun(self, base, *sorts):
         n = self.counters.get(base, 0)
@@ -121,14 +144,15 @@ class Ctx:
         return self.choose([term, z3.Not(term)], site) == 0
 
     # -- obligations
-    def oblige(self, name, goal, **meta):
+    def oblige(self, name, goal, assume_after=True, extra_hyps=(), **meta):
         if isinstance(goal, bool):
             goal = z3.BoolVal(goal)
         g = z3.simplify(goal)
         meta = dict(meta)
         meta.setdefault("inputs", dict(self.inputs))
-        self.obligs.append(Obligation(name, list(self.pc), goal, meta))
-        if z3.is_false(g):
+        meta.setdefault("function", getattr(self, "function", None))
+        self.obligs.append(Obligation(name, list(self.pc) + list(extra_hyps), goal, meta))
+        if z3.is_false(g) or not assume_after:
             return
         # continue under the assumption that the obligation holds
         if not z3.is_true(g):
